@@ -3,8 +3,7 @@
 set -e
 cd "$(dirname "$0")/coq"
 mkdir -p cases
-/venv/bin/python ../tools/py2coq.py >/dev/null
-/venv/bin/python ../tools/py2coq_ctl.py >/dev/null
+for t in ../tools/py2coq*.py; do /venv/bin/python "$t" >/dev/null; done
 flock .build.lock coq_makefile -f _CoqProject -o Makefile >/dev/null
 if ! flock .build.lock timeout 3000 make -j16 > .setup.log 2>&1; then
   tail -40 .setup.log; echo "setup: make failed" >&2; exit 1
